@@ -31,6 +31,8 @@ JOB_TIMEOUT_S = 1800
 VD_QUICK = ["float64", "int64", "bool", "datetime64[ns]"]
 VD_THOROUGH = VD_QUICK + ["float32", "timedelta64[ns]"]
 N_SHARDS = 4
+# history matters on chunked keys: kinds that can take the chunk-wise route dominate
+KEY_KINDS = ["int", "float_nan", "datetime_nat", "str_u", "int_neg"] * 3 + ["str_object", "categorical", "bool", "str_series"]
 
 CACHED = ["ikey_count", "key_count", "_labels_argsort", "_group_sort_indexer", "groups", "has_null_keys", "_group_key_lengths", "_chunk_offsets", "_group_first_sort_key"]
 
@@ -119,11 +121,21 @@ def _row_labels(gb):
     return [labels[c] if c >= 0 else None for c in codes.tolist()], sorted(labels, key=repr)
 
 
-def gen_step(s: Choices, ds, tier):
+LAYOUT_CHANGERS = ["groups", "median", "quantile", "apply", "head", "nth", "cumsum", "rolling_sum", "shift", "ema", "key_count"]
+
+
+def gen_step(s: Choices, ds, tier, early=False):
     kind = s.weighted([(12, "op"), (1, "copy_ctor"), (1, "class_form"), (2, "failing_call")])
     if kind in ("op", "class_form"):
         fam = s.weighted([(4, "basic"), (2, "composite"), (3, "rowwise"), (3, "select")])
         op = ops.gen_op(s, fam, ds)
+        if early and kind == "op" and s.chance(1, 2):
+            # histories matter after a step that re-organises the key or fills a cache:
+            # make such a step likely at the start
+            want = LAYOUT_CHANGERS[s.draw(len(LAYOUT_CHANGERS))]
+            fam2 = next(f for f, names in ops.FAMILIES.items() if want in names)
+            for _ in range(1):
+                op = ops.gen_op(_Forced(s, ops.FAMILIES[fam2].index(want)), fam2, ds)
         return {"kind": kind, "op": op}
     if kind == "copy_ctor":
         return {"kind": "copy_ctor"}
@@ -134,6 +146,25 @@ def gen_step(s: Choices, ds, tier):
         opn = s.weighted([(2, "sum"), (1, "min"), (1, "cumsum"), (1, "count")])
         op = {"op": opn, "cols": [0], "transform": bool(s.draw(2)) if opn != "cumsum" else False, "observed_only": True, "mask": {"kind": "none"}, "skip_na": True}
     return {"kind": "failing_call", "fail": fk, "op": op}
+
+
+class _Forced:
+    """A Choices view whose first draw is fixed (used to pick a given operation name)."""
+
+    def __init__(self, s, first):
+        self._s, self._first, self._used = s, first, False
+
+    def draw(self, n):
+        if not self._used:
+            self._used = True
+            return self._first % max(n, 1)
+        return self._s.draw(n)
+
+    def __getattr__(self, name):
+        s = self._s
+        if name in ("chance", "pick", "weighted", "small"):
+            return lambda *a, **k: getattr(Choices, name)(self, *a, **k)
+        return getattr(s, name)
 
 
 def _step_call(gb, step, ds, lay, class_keys=None):
@@ -156,16 +187,19 @@ def _step_call(gb, step, ds, lay, class_keys=None):
 
 
 def run_one(scen: Choices, sched: Choices, cls, cfg):
-    from groupby_lib.groupby.core import GroupBy
+    return execute(gen_scenario(scen, cls, cfg), sched, cls, cfg)
 
+
+def gen_scenario(scen: Choices, cls, cfg):
+    """The complete, JSON-able scenario of one run (everything but the schedule)."""
     vdtype, _shard = cls
     tier = cfg.get("tier", "quick")
-    ds = gen.gen_dataset(scen, vdtype, tier, max_n=60, allow_multi=True)
+    ds = gen.gen_dataset(scen, vdtype, tier, max_n=60, allow_multi=True, key_kinds=KEY_KINDS, min_n=5)
     sort = not scen.chance(1, 5)
     lay = gen.gen_layout(scen, ds)
     st = gen.gen_strategy(scen, ds)
     # bias towards chunked representations: that is where history matters
-    if st["threshold"] is None and scen.chance(2, 3):
+    if (st["threshold"] is None or st["threshold"] > ds["n"]) and scen.chance(3, 4):
         st["threshold"] = [1, 2, 4, 8][scen.draw(4)]
     max_steps = 8 if tier == "quick" else 14
     nsteps = 2 + scen.small(max_steps - 2)
@@ -174,7 +208,7 @@ def run_one(scen: Choices, sched: Choices, cls, cfg):
         b_ = scen.begin()
         if not scen.forced(1 if len(steps) < nsteps else 0):  # "one more step?"
             break
-        steps.append(gen_step(scen, ds, tier))
+        steps.append(gen_step(scen, ds, tier, early=len(steps) < 2))
         scen.end(b_)
     if not steps:
         steps = [gen_step(Choices(replay=[]), ds, tier)]
@@ -188,7 +222,15 @@ def run_one(scen: Choices, sched: Choices, cls, cfg):
         fault_step = cand[scen.draw(len(cand))]
         fault["k"] = min(fault["k"], 3)
 
-    rec = {"violations": [], "probes": [], "faults": [], "interleavings": [], "ticks": 0, "nontrivial": False, "n_pools": 0}
+    return {"ds": ds, "sort": sort, "lay": lay, "st": st, "steps": steps, "fault": fault, "fault_step": fault_step}
+
+
+def execute(sc, sched: Choices, cls, cfg):
+    from groupby_lib.groupby.core import GroupBy
+
+    vdtype, _shard = cls
+    ds, sort, lay, st, steps, fault, fault_step = sc["ds"], sc["sort"], sc["lay"], sc["st"], sc["steps"], sc["fault"], sc["fault_step"]
+    rec = {"violations": [], "probes": [], "faults": [], "interleavings": [], "ticks": 0, "nontrivial": False, "n_pools": 0, "scenario": sc}
     probes = set()
     null_keys = any(c < 0 for kc in ds["key_codes"] for c in kc)
     key_kind = ds["key_kinds"][0] if len(ds["key_kinds"]) == 1 else "multi"
@@ -223,7 +265,7 @@ def run_one(scen: Choices, sched: Choices, cls, cfg):
     if reused is None:
         # construction fails identically for reused and fresh: nothing history-dependent to check
         rec["probes"] = ["constructor_raises"]
-        rec["digest"] = hashlib.blake2b(repr((cls, ds, lay, st, steps, sort)).encode(), digest_size=8).hexdigest()
+        rec["digest"] = gen.digest((cls[0], sc))
         rec["events"] = rec["result"] = rec["digest"]
         if cfg.get("want_sample"):
             rec["sample"] = {"note": f"constructor raises {type(ctor_err).__name__}", "dataset": {k: ds[k] for k in ("key_kinds", "g", "n", "placement")}}
@@ -365,7 +407,7 @@ def run_one(scen: Choices, sched: Choices, cls, cfg):
     rec["probes"] = sorted(probes)
     rec["states"] = [repr(s_) for s_ in states]
     rec["transitions"] = [repr(t_) for t_ in transitions]
-    rec["digest"] = hashlib.blake2b(repr((cls[0], ds, lay, st, steps, sort, fault, fault_step)).encode(), digest_size=8).hexdigest()
+    rec["digest"] = gen.digest((cls[0], sc))
     rec["events"] = hashlib.blake2b(repr(events).encode(), digest_size=8).hexdigest()
     rec["result"] = hashlib.blake2b(repr(results).encode(), digest_size=8).hexdigest()
     if cfg.get("want_sample"):
